@@ -58,8 +58,10 @@ def install_for_hook(I):
         if s.orelse:
             return False
         for st in s.body:
-            if not isinstance(st, (ast.Expr, ast.If)):
-                return False
+            for sub in ast.walk(st):
+                if isinstance(sub, (ast.Assign, ast.AugAssign, ast.AnnAssign, ast.Return, ast.Break, ast.Continue,
+                                    ast.For, ast.While, ast.Try, ast.Raise, ast.NamedExpr, ast.Delete, ast.With)):
+                    return False
         seqs, shape = I.iter_parts(it)
         from .interp import Env
         bvs = [z3.Const(I.fresh_name(s, f"fe{i}"), V) for i in range(len(seqs))]
